@@ -1,4 +1,10 @@
 ------------------------------ MODULE Trace_Pipe2 ------------------------------
+(* Trace validation of the hooked binary against Pipe2 (real capacities).        *)
+(* Every recorded event must be explained by the corresponding action; steps the *)
+(* hooks cannot see (enqueue, dequeue, loop-head stop checks, end of input, the  *)
+(* stop flag raised from outside) are silent steps between two events.           *)
+(* Acceptance: some behaviour consumes the whole trace (highest consumed index   *)
+(* kept in a TLC register; depth-first queue).                                   *)
 EXTENDS Pipe2, Json, IOUtils
 Rec == ndJsonDeserialize(IOEnv.TRACE)
 VARIABLE l
@@ -8,7 +14,8 @@ Ev(t, e) == l <= Len(Rec) /\ Rec[l].t = t /\ Rec[l].e = e /\ l' = l + 1
 Keep == UNCHANGED asend
 \* silent steps (not recorded): they do not consume the trace
 Silent == /\ UNCHANGED l
-          /\ \/ (REnqueue /\ Keep) \/ (ACheck /\ Keep) \/ (ATake /\ Keep) \/ (\E v \in Spawned : VTake(v) /\ Keep) \/ (AEnqueue) \/ (RCheckStop /\ Keep) \/ (REofExit /\ Keep)
+          /\ \/ (REnqueue /\ Keep) \/ (ACheck /\ Keep) \/ (ATake /\ Keep) \/ (\E v \in Spawned : VTake(v) /\ Keep)
+             \/ (AEnqueue) \/ (RCheckStop /\ Keep) \/ (REofExit /\ Keep) \/ (WTake /\ Keep)
              \/ (ExtStop /\ Keep /\ l <= Len(Rec) /\ Rec[l].stopnow)
 Observed ==
    \/ Ev("R", "send_start") /\ RSendStart(Rec[l].a) /\ Keep
@@ -17,12 +24,18 @@ Observed ==
    \/ Ev("R", "exit") /\ rpc = "done" /\ UNCHANGED allvars
    \/ Ev("A", "recv") /\ ARecv(Rec[l].a) /\ Keep
    \/ Ev("A", "recv_disc") /\ ARecvDisc /\ Keep
+   \/ Ev("A", "view_ok") /\ AView /\ Keep
+   \/ Ev("A", "view_err") /\ AView /\ Keep
    \/ Ev("A", "spawn") /\ ASpawn(Rec[l].a) /\ Keep
    \/ Ev("A", "dispatch") /\ ADispatchStartL(Rec[l].a)
    \/ Ev("A", "join_start") /\ AJoinStart /\ Keep
    \/ Ev("A", "exit") /\ AExit /\ Keep
    \/ Ev("V", "recv") /\ VRecv(Rec[l].a) /\ Keep
    \/ Ev("V", "exit") /\ VExit(Rec[l].a) /\ Keep
+   \/ Ev("W", "recv") /\ WRecv /\ Keep
+   \/ Ev("W", "stop_break") /\ WStopBreak /\ Keep
+   \/ Ev("W", "pushed") /\ WPushed /\ Keep
+   \/ Ev("W", "recv_disc") /\ WRecvDisc /\ Keep
    \/ Ev("M", "drop_recv") /\ MDrop /\ Keep
    \/ Ev("M", "forward_end") /\ MForwardEnd /\ Keep
    \/ Ev("M", "joined_R") /\ UNCHANGED allvars
